@@ -21,7 +21,7 @@ use std::panic::AssertUnwindSafe;
 use duke::tree::class::{ObjClassName, ObjClassNameSlice};
 use duke::tree::field::{FieldDescriptorSlice, FieldNameAndDesc, FieldNameSlice};
 use duke::tree::method::{MethodDescriptorSlice, MethodNameAndDesc, MethodNameSlice, MethodRefObj};
-use dukebox::storage::{BasicFileAttributes, ClassRepr, JarEntryEnum, ParsedJar, ParsedJarEntry};
+use dukebox::storage::{BasicFileAttributes, ClassRepr, Jar, JarEntryEnum, ParsedJar, ParsedJarEntry};
 use fbh::gal::*;
 use fbh::mapmodel::*;
 use fbh::prng::Rng;
@@ -68,18 +68,50 @@ type Pairs = Vec<(MRef, MRef)>;
 thread_local! { static LAST_ERR: RefCell<String> = RefCell::new(String::new()); }
 fn last_err() -> String { LAST_ERR.with(|l| format!("Err ({})", l.borrow())) }
 
+/// the private table specialized_to_bridge of a SpecializedMethods value, seen through `remap` with the recording
+/// identity remapper: first the (bridge, specialized) pairs of bridge_to_specialized are asked, then the
+/// (specialized, bridge) pairs of specialized_to_bridge.  Also returns bridge_to_specialized of the remapped value.
+fn observe_s2b(sm: &specialized_methods::SpecializedMethods) -> (Pairs, Option<Pairs>) {
+	let n = sm.bridge_to_specialized.len();
+	let rec = Recorder(RefCell::new(vec![]));
+	let again = sm.clone().remap(&rec).ok().map(|x| x.bridge_to_specialized.iter().map(|(b, s)| (of_ref(b), of_ref(s))).collect());
+	let log = rec.0.into_inner();
+	let rest = &log[(2 * n).min(log.len())..];
+	(rest.chunks(2).filter(|c| c.len() == 2).map(|c| (c[0].clone(), c[1].clone())).collect(), again)
+}
+
+thread_local! {
+	/// bridge_to_specialized of the last value after `remap` with the identity remapper (None: remap returned Err)
+	static ID_REMAP: RefCell<Option<Pairs>> = RefCell::new(None);
+}
+
 /// Jar::get_specialized_methods: Ok(Some((b2s, s2b))) | Ok(None) for Err | Err(panic message)
 fn impl_spec(jar: &MemJar) -> Result<Option<(Pairs, Pairs)>, String> {
 	guarded(AssertUnwindSafe(|| {
 		let sm = match jar.get_specialized_methods() { Ok(sm) => sm, Err(e) => { LAST_ERR.with(|l| *l.borrow_mut() = format!("{e:#}")); return None } };
 		let b2s: Pairs = sm.bridge_to_specialized.iter().map(|(b, s)| (of_ref(b), of_ref(s))).collect();
-		let rec = Recorder(RefCell::new(vec![]));
-		let _ = sm.clone().remap(&rec);
-		let log = rec.0.into_inner();
-		// first the (bridge, specialized) pairs of bridge_to_specialized, then (specialized, bridge) of specialized_to_bridge
-		let rest = &log[(2 * b2s.len()).min(log.len())..];
-		let s2b: Pairs = rest.chunks(2).filter(|c| c.len() == 2).map(|c| (c[0].clone(), c[1].clone())).collect();
+		let (s2b, again) = observe_s2b(&sm);
+		ID_REMAP.with(|c| *c.borrow_mut() = again);
 		Some((b2s, s2b))
+	}))
+}
+
+/// `main_jar.get_specialized_methods()?.remap(&remapper_calamus)?` exactly as add_specialized_methods_to_mappings builds
+/// it (providers of the main jar and the libraries, calamus official -> intermediary): both tables of the result.
+/// Ok(Some((b2s', s2b'))) | Ok(None) for Err | Err(panic message)
+fn impl_remap(jar: &MemJar, libs: &[MemJar], cal: &MMappings) -> Result<Option<(Pairs, Pairs)>, String> {
+	let Ok(cal_q) = to_quill::<2, (Official, Intermediary)>(cal) else { return Err("harness: calamus mirror not convertible".into()) };
+	guarded(AssertUnwindSafe(|| {
+		let run = || -> anyhow::Result<(Pairs, Pairs)> {
+			let mut provs = vec![jar.get_super_classes_provider()?];
+			for l in libs { provs.push(l.get_super_classes_provider()?); }
+			let rc = cal_q.remapper_b(cal_q.get_namespace("official")?, cal_q.get_namespace("intermediary")?, &provs)?;
+			let sm = jar.get_specialized_methods()?.remap(&rc)?;
+			let b2s: Pairs = sm.bridge_to_specialized.iter().map(|(b, s)| (of_ref(b), of_ref(s))).collect();
+			let (s2b, _) = observe_s2b(&sm);
+			Ok((b2s, s2b))
+		};
+		run().map_err(|e| LAST_ERR.with(|l| *l.borrow_mut() = format!("{e:#}"))).ok()
 	}))
 }
 
@@ -220,6 +252,22 @@ fn do_spec(r: &mut Report, stream: &str, classes: &[AClass], jar: &MemJar, use_o
 					let what = format!("specialized_to_bridge has {} entries for {} delegates", s2b.len(), ds.len());
 					r.violation(what.clone(), replay_text(&what, classes, &[], None, &show_pairs(s2b)));
 				}
+				// the tie-break between several bridges of one delegate: the one higher in the hierarchy
+				let mut want_s2b = oracle::ref_s2b(classes, &expected); want_s2b.sort();
+				let mut have_s2b = s2b.clone(); have_s2b.sort();
+				if want == have && want_s2b != have_s2b {
+					let what = format!("specialized_to_bridge does not keep the bridge higher in the hierarchy: implementation [{}], rule [{}]", show_pairs(s2b), show_pairs(&oracle::ref_s2b(classes, &expected)));
+					r.violation(what.clone(), replay_text(&what, classes, &[], None, &show_pairs(s2b)));
+				}
+				if b2s.len() >= 2 && ds.len() < b2s.len() { r.count("spec:several-bridges-share-a-delegate"); }
+				// SpecializedMethods::remap with a remapper that renames nothing returns the table it was given
+				match ID_REMAP.with(|c| c.borrow().clone()) {
+					Some(again) if again == *b2s => {}
+					other => {
+						let what = format!("SpecializedMethods::remap with a remapper that renames nothing changed bridge_to_specialized: [{}] became {}", show_pairs(b2s), match &other { Some(a) => format!("[{}]", show_pairs(a)), None => "an error".into() });
+						r.violation(what.clone(), replay_text(&what, classes, &[], None, &what));
+					}
+				}
 			}
 		}
 	}
@@ -264,6 +312,56 @@ fn do_add_opt(r: &mut Report, stream: &str, g: &JarGen, jar: &MemJar, libs: &[Me
 	if fresh && with_case {
 		r.case(stream, intern(&format!("CAdd {} {}", text, gres(got.as_ref().map(g_mappings)))));
 	}
+	// the step between detection and insertion on its own: both tables after `remap` with the calamus remapper
+	if with_case { do_remap(r, &stream.replace("-add", "-remap"), g, jar, libs, cal, use_oracle); }
+}
+
+/// one (jar, libraries, calamus) through `get_specialized_methods()?.remap(&remapper_calamus)`: BOTH tables of the result
+fn do_remap(r: &mut Report, stream: &str, g: &JarGen, jar: &MemJar, libs: &[MemJar], cal: &MMappings, use_oracle: bool) {
+	let text = format!("{} {} {}", g_jar(&g.classes), glist(g.libs.iter().map(|l| g_jar(l))), g_mappings(cal));
+	let expected = oracle::ref_pairs(&g.classes);
+	if !r.eval(&format!("remap {text}"), !expected.is_empty() && !cal.classes.is_empty()) { return; }
+	let rt = |what: &str, got: &str| format!("{}calamus (Gallina): {}\n", replay_text(what, &g.classes, &g.libs, None, got), g_mappings(cal));
+	fbh::report::crumb(&rt("SpecializedMethods::remap with the calamus remapper did not return (endless loop, unbounded recursion, memory exhaustion or crash)", "nothing"));
+	let got = match impl_remap(jar, libs, cal) {
+		Err(p) if p.starts_with("harness:") => { r.count("remap:skipped-unconvertible"); return; }
+		Err(p) => { r.violation(format!("SpecializedMethods::remap panicked: {p}"), rt("SpecializedMethods::remap panicked", &p)); return; }
+		Ok(x) => x,
+	};
+	r.count(match &got { None => "remap:Err", Some((b, _)) if b.len() < expected.len() => "remap:Ok,bridges-merged", Some(_) => "remap:Ok" });
+	if use_oracle {
+		// `remap` is judged on its own: the tables it is given are the ones the implementation detected (detection has its
+		// own oracle in do_spec); when detection returned an error the documented pairs stand in
+		let (det_b, det_s) = match impl_spec(jar) { Ok(Some(x)) => x, _ => (expected.clone(), oracle::ref_s2b(&g.classes, &expected)) };
+		let want_b = oracle::ref_remap(&g.classes, &g.libs, cal, &det_b);
+		let want_s = oracle::ref_remap(&g.classes, &g.libs, cal, &det_s);
+		let shown = match &got { Some((b, s)) => format!("bridge_to_specialized [{}]; specialized_to_bridge [{}]", show_pairs(b), show_pairs(s)), None => last_err() };
+		match (&got, &want_b, &want_s) {
+			(None, None, _) | (None, _, None) => {}
+			(None, Some(_), Some(_)) => {
+				let what = "SpecializedMethods::remap returned an error although every inheritance lookup of a bridge / delegate ends".to_string();
+				r.violation(what.clone(), rt(&what, &shown));
+			}
+			(Some(_), None, _) | (Some(_), _, None) => {
+				let what = "SpecializedMethods::remap returned tables although a lookup through the super types of a bridge / delegate runs into cyclic inheritance (documented: an error)".to_string();
+				r.violation(what.clone(), rt(&what, &shown));
+			}
+			(Some((b, s)), Some(wb), Some(ws)) => {
+				let sorted = |v: &Pairs| { let mut v = v.clone(); v.sort(); v };
+				if sorted(b) != sorted(wb) {
+					let lost: Vec<String> = wb.iter().filter(|e| !b.iter().any(|x| x.0 == e.0)).map(|e| show_mref(&e.0)).collect();
+					let what = format!("SpecializedMethods::remap does not preserve bridge_to_specialized (every pair re-expressed in intermediary names): {}implementation [{}], rule [{}]", if lost.is_empty() { String::new() } else { format!("bridges lost: {}; ", lost.join(", ")) }, show_pairs(b), show_pairs(wb));
+					r.violation(what.clone(), rt(&what, &shown));
+				}
+				if sorted(s) != sorted(ws) {
+					let what = format!("SpecializedMethods::remap does not preserve specialized_to_bridge (every pair re-expressed in intermediary names): implementation [{}], rule [{}]", show_pairs(s), show_pairs(ws));
+					r.violation(what.clone(), rt(&what, &shown));
+				}
+			}
+		}
+	}
+	let res = match &got { Some((b, s)) => gres(Some(gpair(g_pairs(b), g_pairs(s)))), None => gres(None) };
+	r.case(stream, intern(&format!("CRemap {} {}", text, res)));
 }
 
 /// the fixed inputs: /repo's own fixture classes and the vendored javac bridge patterns, each
@@ -373,7 +471,7 @@ fn run(ctx: &Ctx) -> anyhow::Result<Report> {
 	limit_resources(ctx.thorough);
 	let mut r = Report::new("C15", "C15.Run");
 	r.shard_size = 60;
-	r.rule = "jars are class files assembled in memory (own JVMS assembler, harness/src/bin/c15/asm.rs) from an abstract description (bodies are printed to the model as instruction lists: the four invokes with their references and interface-constant flag, invokedynamic, IOther): acyclic hierarchies over a pool of 10 in-jar and 6 external class names, per class a few patterns — flagged bridges, unflagged synthetics with generalised (Object / ancestor / external / equal) parameter and return types, and the near-misses not-synthetic, zero / two / repeated / array-class callees, arity mismatch, incompatible type, void-vs-value, private|static|final with and without the bridge flag, no Code, delegate in another class, a further bridge in a related class invoking the identical delegate reference, invokedynamic instructions beside / instead of the invoke, array element covariance as a candidate — ; a `dag` stream of multi-parent hierarchies inside the jar (2-3 super types per class in random order, redundant edges to an ancestor, no external super types) with unflagged synthetics whose parameter / return types are in-jar ancestors of the delegate's types (or, as near misses, non-ancestors); deterministic shapes (harness/src/bin/c15/det.rs): diamonds with every order of every parent list (shared ancestor first / middle / last; first parent as super class or interface) and the bound reached only through a later entry, at a parameter, second parameter, return type, both, unflagged and flagged, with the mapping sets of the seeded demonstration; two-level diamonds; towers of 3 / 6 / 9 diamonds and tall towers of 40 / 64 diamonds (2^42 and 2^66 paths: detection with a correspondence case, insertion judged by the oracle only); ten CYCLIC hierarchy shapes in both jar orders (self loops through super class / interface, 2- and 3-cycles, a cycle below the start, behind a second parent, through a class outside the jar, two cycles sharing a class, a diamond inside a cycle) with every in-jar class as bound of an unflagged synthetic and flagged bridges sharing a delegate inside the cycle, each with mapping sets naming all / none / some methods (cyclic inheritance met by a remapper lookup = Err); 74 bodies for what counts as an invocation (each of the four opcodes with Methodref / InterfaceMethodref constants, the same target through two and through all four opcodes, the delegate's name and descriptor on another owner / on an array class / only on an array class per opcode, other descriptor, other name, invokedynamic between invokes); 60 arity cases (the synthetic's parameter list a proper prefix / extension of the delegate's with every common position and the return type compatible, down to zero parameters, in both directions; same-arity controls; flagged controls; delegate under the same / another name); 28 foreign-owner cases (the delegate owned by the super class / an interface / an unrelated class of the jar / a library class with and without the library jar / java/lang/Object, by invokespecial / invokeinterface / invokestatic / invokevirtual, flagged and unflagged) with four hand-built mapping sets each (rows for both classes; the delegate already named in both; only the owner's row; the bridge's name inherited from the owner's row); array candidates; 2-3 bridges in super class / subclass / unrelated class in several jar orders sharing one delegate reference; the bridge key named differently in two super types (both parent orders, depth-first through a super type's super class, differing intermediary names, no name at all, no row for the bridge's class) with hand-built mapping sets; bodies with invokedynamic — plus the vendored javac-17 bridge classes of corpus/C15 (covariant returns, parameters erased to Object and to a bound, interface bridges, bridges through several levels, visibility bridges, lambdas/enum synthetics; abstract view from javap, confirmed by the independent parser) with /repo's fixtures, and every directory of the shared corpus /verif/corpus/classes as one jar (abstract view from the independent parser fbh::classfile::raw; quick tier: the 40 first directories, bridge classes first). Mapping sets: calamus (official->intermediary) and mappings (intermediary->named) naming each class / method involved with a per-case probability, delegate entries with javadoc and parameters, bridge keys named only in a super type or under different names in every super type (own entry removed), unrelated entries; extra streams: duplicate class / method keys, exchanged namespace order, wrong namespace names, a method / field descriptor that the remapper's map_desc refuses. Distinct = distinct (abstract jar, libraries, mapping sets); non-trivial = the documented rule yields at least one bridge pair (and, for the insertion, the mappings are not empty).".into();
+	r.rule = "jars are class files assembled in memory (own JVMS assembler, harness/src/bin/c15/asm.rs) from an abstract description (bodies are printed to the model as instruction lists: the four invokes with their references and interface-constant flag, invokedynamic, IOther): acyclic hierarchies over a pool of 10 in-jar and 6 external class names, per class a few patterns — flagged bridges, unflagged synthetics with generalised (Object / ancestor / external / equal) parameter and return types, and the near-misses not-synthetic, zero / two / repeated / array-class callees, arity mismatch, incompatible type, void-vs-value, private|static|final with and without the bridge flag, no Code, delegate in another class, a further bridge in a related class invoking the identical delegate reference, invokedynamic instructions beside / instead of the invoke, array element covariance as a candidate — ; a `dag` stream of multi-parent hierarchies inside the jar (2-3 super types per class in random order, redundant edges to an ancestor, no external super types) with unflagged synthetics whose parameter / return types are in-jar ancestors of the delegate's types (or, as near misses, non-ancestors); deterministic shapes (harness/src/bin/c15/det.rs): diamonds with every order of every parent list (shared ancestor first / middle / last; first parent as super class or interface) and the bound reached only through a later entry, at a parameter, second parameter, return type, both, unflagged and flagged, with the mapping sets of the seeded demonstration; two-level diamonds; towers of 3 / 6 / 9 diamonds and tall towers of 40 / 64 diamonds (2^42 and 2^66 paths: detection with a correspondence case, insertion judged by the oracle only); ten CYCLIC hierarchy shapes in both jar orders (self loops through super class / interface, 2- and 3-cycles, a cycle below the start, behind a second parent, through a class outside the jar, two cycles sharing a class, a diamond inside a cycle) with every in-jar class as bound of an unflagged synthetic and flagged bridges sharing a delegate inside the cycle, each with mapping sets naming all / none / some methods (cyclic inheritance met by a remapper lookup = Err); 74 bodies for what counts as an invocation (each of the four opcodes with Methodref / InterfaceMethodref constants, the same target through two and through all four opcodes, the delegate's name and descriptor on another owner / on an array class / only on an array class per opcode, other descriptor, other name, invokedynamic between invokes); 60 arity cases (the synthetic's parameter list a proper prefix / extension of the delegate's with every common position and the return type compatible, down to zero parameters, in both directions; same-arity controls; flagged controls; delegate under the same / another name); 28 foreign-owner cases (the delegate owned by the super class / an interface / an unrelated class of the jar / a library class with and without the library jar / java/lang/Object, by invokespecial / invokeinterface / invokestatic / invokevirtual, flagged and unflagged) with four hand-built mapping sets each (rows for both classes; the delegate already named in both; only the owner's row; the bridge's name inherited from the owner's row); array candidates; 2-3 bridges in super class / subclass / unrelated class in several jar orders sharing one delegate reference; the bridge key named differently in two super types (both parent orders, depth-first through a super type's super class, differing intermediary names, no name at all, no row for the bridge's class) with hand-built mapping sets; bodies with invokedynamic — plus the vendored javac-17 bridge classes of corpus/C15 (covariant returns, parameters erased to Object and to a bound, interface bridges, bridges through several levels, visibility bridges, lambdas/enum synthetics; abstract view from javap, confirmed by the independent parser) with /repo's fixtures, and every directory of the shared corpus /verif/corpus/classes as one jar (abstract view from the independent parser fbh::classfile::raw; quick tier: the 40 first directories, bridge classes first). Mapping sets: calamus (official->intermediary) and mappings (intermediary->named) naming each class / method involved with a per-case probability, delegate entries with javadoc and parameters, bridge keys named only in a super type or under different names in every super type (own entry removed), unrelated entries; extra streams: duplicate class / method keys, exchanged namespace order, wrong namespace names, a method / field descriptor that the remapper's map_desc refuses. Round 5: every (jar, libraries, calamus) also goes through `get_specialized_methods()?.remap(&remapper_calamus)` on its own (case CRemap: both tables of the remapped value; oracle: pointwise images of the tables the implementation detected, last pair of a key wins; an identity remap returns bridge_to_specialized unchanged); specialized_to_bridge is judged by the tie-break rule of the source (the bridge higher in the hierarchy); shared-delegate patterns also produce covariant siblings (one object-typed position generalised to Object, in the same or a related class); deterministic: two covariant bridges of ONE class (return / parameter / in-jar bound, both declaration orders, flagged and unflagged) whose keys are named differently in two super types; bridges in a class and its subclasses sharing one delegate with hand-built mapping sets; name-less entries (no named / no intermediary name) in the bridge's own row, in the class between, for the delegate, everywhere, and a name-less class row, with the real name on a super class; random mapping sets keep a name-less own entry beside an inherited name. Distinct = distinct (abstract jar, libraries, mapping sets); non-trivial = the documented rule yields at least one bridge pair (and, for the insertion, the mappings are not empty).".into();
 	let mut rng = Rng::new(ctx.seed);
 
 	corpus(&mut r, &mut rng)?;
